@@ -186,14 +186,19 @@ def preemptions_before(points, i):
     return n
 
 
-def explore(make_bodies, bound, on_run, max_schedules=None):
+def explore(make_bodies, bound, on_run, max_schedules=None, budget_s=None):
     """enumerate all schedules with <= bound preemptions.  make_bodies() -> fresh list of callables (fresh state per
     schedule); on_run(run) is called for every completed execution.  returns (schedules, max points, capped?)"""
+    import time
+    t0 = time.time()
     stack = [[]]
     count = 0
     maxpoints = 0
     capped = False
     while stack:
+        if budget_s is not None and time.time() - t0 > budget_s:
+            capped = True      # reported as a capped exploration, never as "exhaustive"
+            break
         prefix = stack.pop()
         run = Run(make_bodies(), prefix).execute()
         count += 1
